@@ -3786,7 +3786,11 @@ class Network(Cached):
             #  If the component has size 1, set random walk betweenness to zero
             # FIXME: check why there was a problem with ==1
             if len(comp) < 2:
-                nsi_newman_betweenness[comp[0]] = 0
+                #  (with local ends, the only contribution is the one of the
+                #  node's own weight, as for larger components below)
+                w0 = self.node_weights[comp[0]]
+                nsi_newman_betweenness[comp[0]] = \
+                    w0 * w0 if add_local_ends else 0
             #  For larger components, continue with the calculation
             else:
                 #  Get the subgraph corresponding to component i
